@@ -150,6 +150,14 @@ class H(Hooks):
                                f'{kind}{args} appended no operation'))
 
 
+# coverage-guided campaign (pkv/fuzz.py): same strategy and oracle driven by
+# libFuzzer through Hypothesis' fuzz_one_input; pokerkit instrumented
+FUZZ = dict(
+    quick=dict(procs=8, runs=120, wall=60),
+    thorough=dict(procs=16, runs=6000, wall=900),
+)
+
+
 def budget(tier):
     if tier == 'quick':
         return dict(examples=4800, wall=100)
